@@ -10,7 +10,21 @@ package main
 //   9 uid                       ptt.killUser(uid, id of the slot)
 //   10 uid <14 bytes>           cmbbs.PasswdUpdatePasswd     11 uid <50 bytes>  cmbbs.PasswdUpdateEmail
 //   12 uid                      ptt.pwcuIncNumPost(&UserecRaw{UserID: id in the file}, uid)
+//   13 mode <k uid ...>         the operation <k uid ...> while .PASSWDS refuses the write: mode 1 = the file is away (renamed) for
+//                               the duration of the call, so the open fails; mode 2 = the path leads to /dev/full for the duration of
+//                               the call, so open and seek succeed and the write itself fails (ENOSPC). The file is back before the observation.
+//   14 uid m                    the segment's balance of the slot is set to m WITHOUT a file write (what a process that died between
+//                               SetUMoney's store into shared memory and its write to .PASSWDS leaves behind; SysV memory survives it)
+//   15 uid m                    the Money field of the record in .PASSWDS is set to m behind the segment's back (a maintenance tool, a restore)
 // value of 5/6/8: the Money the caller's record carries after the call; of 7: the Money of the record returned.
+// Production-size table (driver built with -tags "verif docker", MAX_USERS = 2 000 000):
+//   4|nrec load|w1 w2 ..|u m u m ..|<op>|<op>|...
+// .PASSWDS is a sparse file of nrec zero records in which record u carries the user id "u<u>" and Money m for every (u, m) given;
+// load 1: Shm.Reset + LoadUHash over the whole file (a real cold load, about a GB of records); load 0: Shm.Reset and the segment's
+// balance of every (u, m) is put where the cold load puts it (Shm.Money[u-1] = m), Number/Loaded as after a load.
+// Observation (after the load and after every step):
+//   <k> (slot balance)*k   every non-zero balance of the whole segment
+//   <file length> <n> (offset byte)*n   every non-zero byte of .PASSWDS (read from its data extents: SEEK_DATA / SEEK_HOLE)
 // The file is written, the segment is reset and cold-loaded from it, then every operation is run
 // (each under its own recover). After the load and after every step the driver prints
 //   <all MAX_USERS Money values of the attached segment> <file length> <n> <offset byte>*n
@@ -23,6 +37,8 @@ import (
 	"errors"
 	"os"
 	"reflect"
+	"strconv"
+	"syscall"
 	"unsafe"
 
 	"github.com/Ptt-official-app/go-pttbbs/cache"
@@ -138,8 +154,34 @@ func c20Step(g []string) (res []string) {
 			res = []string{"1", "0", "0"}
 		}
 	}()
+	if ai(g[0]) == 13 {
+		if len(g) < 4 {
+			panic("badcase:13")
+		}
+		restore := c20Refuse(ai(g[1]))
+		defer restore()
+		return c20Step(g[2:])
+	}
 	uid := ptttype.UID(int32(ai(g[1])))
 	switch ai(g[0]) {
+	case 14:
+		if !uid.IsValid() {
+			panic("badcase:14")
+		}
+		cache.Shm.Shm.Money[uid-1] = int32(ai(g[2]))
+		return []string{"0", g[2], "0"}
+	case 15:
+		if !uid.IsValid() {
+			panic("badcase:15")
+		}
+		f, err := os.OpenFile(ptttype.FN_PASSWD, os.O_WRONLY, 0o600)
+		must(err)
+		defer f.Close()
+		b := make([]byte, 4)
+		binary.LittleEndian.PutUint32(b, uint32(int32(ai(g[2]))))
+		_, err = f.WriteAt(b, int64(ptttype.USEREC_RAW_SZ)*int64(uid-1)+int64(unsafe.Offsetof(ptttype.USEREC_RAW.Money)))
+		must(err)
+		return []string{"0", g[2], "0"}
 	case 1:
 		v, err := cache.SetUMoney(uid, int32(ai(g[2])))
 		if err != nil {
@@ -222,6 +264,150 @@ func c20Step(g []string) (res []string) {
 	panic("badcase:op")
 }
 
+// c20Refuse makes .PASSWDS refuse writes until the returned function is called.
+func c20Refuse(mode int64) func() {
+	away := ptttype.FN_PASSWD + ".away"
+	if mode != 1 && mode != 2 {
+		panic("badcase:refuse mode")
+	}
+	must(os.Rename(ptttype.FN_PASSWD, away))
+	if mode == 2 {
+		must(os.Symlink("/dev/full", ptttype.FN_PASSWD))
+	}
+	return func() {
+		if mode == 2 {
+			must(os.Remove(ptttype.FN_PASSWD))
+		}
+		must(os.Rename(away, ptttype.FN_PASSWD))
+	}
+}
+
+// the slot an operation group addresses
+func c20Target(g []string) ptttype.UID {
+	if ai(g[0]) == 13 {
+		if len(g) < 4 {
+			panic("badcase:13")
+		}
+		return ptttype.UID(int32(ai(g[3])))
+	}
+	return ptttype.UID(int32(ai(g[1])))
+}
+
+// every non-zero balance of the segment; every non-zero byte of .PASSWDS (holes of a sparse file read as zero and are skipped)
+func c20ObserveSparse() []string {
+	out := []string{}
+	k := 0
+	for i := 0; i < int(ptttype.MAX_USERS); i++ {
+		if m := cache.Shm.Shm.Money[i]; m != 0 {
+			out = append(out, strconv.Itoa(i+1), oi(int64(m)))
+			k++
+		}
+	}
+	out = append([]string{strconv.Itoa(k)}, out...)
+	f, err := os.Open(ptttype.FN_PASSWD)
+	must(err)
+	defer f.Close()
+	st, err := f.Stat()
+	must(err)
+	size := st.Size()
+	pairs := []string{}
+	const seekData, seekHole = 3, 4
+	buf := make([]byte, 1<<16)
+	pos := int64(0)
+	for pos < size {
+		start, err := f.Seek(pos, seekData)
+		if err != nil {
+			if errors.Is(err, syscall.ENXIO) {
+				break // no data after pos
+			}
+			start = pos // SEEK_DATA not supported here: everything is data
+		}
+		end, err := f.Seek(start, seekHole)
+		if err != nil || end <= start {
+			end = size
+		}
+		for at := start; at < end; {
+			n := int64(len(buf))
+			if end-at < n {
+				n = end - at
+			}
+			m, err := f.ReadAt(buf[:n], at)
+			for i := 0; i < m; i++ {
+				if buf[i] != 0 {
+					pairs = append(pairs, oi(at+int64(i)), strconv.Itoa(int(buf[i])))
+				}
+			}
+			if m == 0 && err != nil {
+				break
+			}
+			at += int64(m)
+		}
+		pos = end
+	}
+	out = append(out, oi(size), strconv.Itoa(len(pairs)/2))
+	return append(out, pairs...)
+}
+
+// 4|nrec load|watch..|u m ..|ops: histories on a table of MAX_USERS slots, whatever MAX_USERS is in this build
+func c20Big(args [][]string) []string {
+	if len(args) < 4 || len(args[1]) != 2 || len(args[3])%2 != 0 {
+		return []string{"9"}
+	}
+	nrec, load := ai(args[1][0]), ai(args[1][1])
+	if nrec < 0 || nrec > int64(ptttype.MAX_USERS) {
+		return []string{"9"}
+	}
+	os.Remove(ptttype.FN_PASSWD)
+	f, err := os.OpenFile(ptttype.FN_PASSWD, os.O_CREATE|os.O_RDWR|os.O_TRUNC, 0o600)
+	must(err)
+	must(f.Truncate(nrec * int64(ptttype.USEREC_RAW_SZ)))
+	type plant struct {
+		u ptttype.UID
+		m int32
+	}
+	plants := []plant{}
+	for i := 0; i+1 < len(args[3]); i += 2 {
+		u, m := ptttype.UID(int32(ai(args[3][i]))), int32(ai(args[3][i+1]))
+		if int64(u) < 1 || int64(u) > nrec {
+			f.Close()
+			return []string{"9"}
+		}
+		rec := &ptttype.UserecRaw{Money: m}
+		copy(rec.UserID[:], "u"+strconv.Itoa(int(u)))
+		buf := &bytes.Buffer{}
+		must(binary.Write(buf, binary.LittleEndian, rec))
+		_, err = f.WriteAt(buf.Bytes(), int64(ptttype.USEREC_RAW_SZ)*int64(u-1))
+		must(err)
+		plants = append(plants, plant{u, m})
+	}
+	must(f.Close())
+	cache.Shm.Reset()
+	if load == 1 {
+		must(cache.LoadUHash())
+	} else {
+		for _, p := range plants {
+			cache.Shm.Shm.Userid[p.u-1] = ptttype.UserID_t{}
+			copy(cache.Shm.Shm.Userid[p.u-1][:], "u"+strconv.Itoa(int(p.u)))
+			cache.Shm.Shm.Money[p.u-1] = p.m
+		}
+		cache.Shm.Shm.Number = int32(nrec)
+		cache.Shm.Shm.Loaded = 1
+	}
+	c20Pending = map[ptttype.UID]*ptttype.UserecRaw{}
+	out := ok(c20ObserveSparse()...)
+	for _, g := range args[4:] {
+		if len(g) < 2 {
+			return []string{"9"}
+		}
+		out = append(out, c20Step(g)...)
+		out = append(out, oi(c20Field(c20Target(g))))
+		out = append(out, c20ObserveSparse()...)
+	}
+	// leave the small fixture-sized file behind for the cases that follow
+	must(os.Truncate(ptttype.FN_PASSWD, 0))
+	return out
+}
+
 func init() {
 	var env *bbsEnv
 	register("C20", &propDriver{
@@ -240,10 +426,12 @@ func init() {
 						return []string{"9"}
 					}
 					out = append(out, c20Step(g)...)
-					out = append(out, oi(c20Field(ptttype.UID(int32(ai(g[1]))))))
+					out = append(out, oi(c20Field(c20Target(g))))
 					out = append(out, c20Observe(init)...)
 				}
 				return out
+			case 4:
+				return c20Big(args)
 			case 2: // constants as the compiled program sees them
 				return ok(oi(int64(ptttype.MAX_USERS)), oi(int64(ptttype.USEREC_RAW_SZ)), oi(int64(unsafe.Offsetof(ptttype.USEREC_RAW.Money))))
 			case 3: // layout of the fields the record writers touch, and of the bool bytes
